@@ -57,11 +57,23 @@ func TestMain(m *testing.M) {
 			"virtual time. Connection layers: pacing only (slow reader, pausing writer) on Noise and pnet, pacing plus short/past read deadlines on TLS, in 1 of 4 fidelity cases. "+
 			"The oracle is unchanged (bytes handed to the reader, whatever error came with them, equal the bytes the writer was told were accepted, complete at the end). Labels "+
 			"deadline:* count generated classes, observed:Write=(0<n<len,timeout) / observed:Read=(n>0,timeout) count cases in which partial progress was actually reported. "+
-			"DISTINCT = distinct structured plan (lengths, splits, read specs, chunk patterns, capacity, tamper, deadline schedule).",
+			"IDLE PERIODS (virtual time; yamux, upgrader stack, hosts): in 1 of 3 stream cases every stream draws, for neither / one / both directions, one idle period of 1.5 s / 4 s / 11 s / 35 s / 65 s / 130 s "+
+			"-- the writer stops before one of its first four Write calls or the reader before one of its first four Read calls -- i.e. longer than the timeouts the library arms by itself (protocol negotiation 10 s by default, "+
+			"yamux write timeout 10 s and keep-alive 30 s, identify 30 s / 60 s); the statement puts no bound on the time between two calls, the oracle is unchanged. HOSTS additionally draw HostOpts.NegotiationTimeout of both hosts "+
+			"(default 10 s, 1 s, 3 s, 30 s, none) and per stream the style of the acceptor's handler: it hands the stream to the workers and returns (1/3), or it keeps the stream and returns only when the stream has been closed (2/3, like a handler "+
+			"that serves the stream synchronously). The opener of a lazily negotiated stream does not idle before its first non-empty Write (the acceptor rightly gives up on a stream that does not name its protocol within the negotiation timeout). "+
+			"Labels idle:*, handler:*, negotiation-timeout:*; handler:keeps-stream-beyond-negotiation-timeout counts cases with a held stream whose idle period exceeds the configured negotiation timeout. "+
+			"MESSAGE-FRAMED TRANSPORT (quick and thorough, real loopback TCP, outside bubbles): TestL13OverWebsocket runs Noise (1/2), pnet (1/4), TLS (1/4) sessions, TestL5UpgraderStackOverWebsocket the real upgrader (PSK x Noise/TLS x yamux, "+
+			"1-3 streams), over connections made by the real WebSocket transport (Listen + Dial on 127.0.0.1; the transport's own Conn on both ends, every Conn.Write = one WebSocket message), with the same length / Write-size / read-buffer "+
+			"generators (Write sizes at 65518/65519/65520/65535/65536/2*65519(+1) etc., so that the security layer emits its largest frame in one Write); both directions concurrently, no deadlines or pauses (real time). Oracle as above; "+
+			"without a half-close each reader stops at the payload length, then the dialer's end is closed and the other end must see the end of the stream without a further byte. Labels ws:message>64KiB (some Write makes the layer emit a "+
+			"single message above 64 KiB: Noise Write >= 65519, pnet Write > 65536), ws:Write>=full-frame-of-the-layer, ws:stream-Write>=full-yamux-frame are derived from the plan. "+
+			"DISTINCT = distinct structured plan (lengths, splits, read specs, chunk patterns, capacity, tamper, deadline schedule, idle periods, handler style, negotiation timeout, transport).",
 		"the in-memory pipe (internal/memnet) and the chunking wrapper deliver bytes faithfully; they are checked by the same oracle in the pnet layer where nothing else could repair an error",
 		"frame sizes of each layer (Noise 65519, TLS 16384, yamux 65524) are used only to aim the generator and to label cases, never in the verdict of untampered cases",
 		"tamper verdicts rely on the wire framing (Noise: 2-byte length prefix, 16-byte tag; TLS 1.3: 5-byte header, 17 bytes overhead) to locate the first tampered frame's plaintext offset (an upper bound for TLS)",
 		"a truncation that removes whole trailing frames is reported to the reader as plain EOF by Noise and TLS-at-record-boundary; EOF counts as the error the statement asks for",
+		"the WebSocket tests use real loopback sockets: a connection on 127.0.0.1 neither loses nor damages bytes by itself; a set-up failure or a stall of 3 real minutes is inconclusive, never a violation; if the transport cannot listen on loopback the tests are skipped and labelled config-unavailable:websocket; their labels and non-trivial verdicts are computed from the plan only, so the evidence does not depend on socket timing",
 		"L6 (real loopback sockets: TCP, WebSocket, QUIC, WebTransport, WebRTC-direct, and TCP/WS behind the shared TCP listener) runs in the thorough tier only, with the default stack of each transport; a configuration that cannot be set up in the environment is skipped and labelled config-unavailable",
 		"streams of one muxed connection are accepted in the order in which their first frames were sent (L4, L5 upgrader); host-level layers route streams by protocol id instead",
 		"deadline cases: a reader that polls with an expired read deadline gets at most the initial stream window (256 KiB, minus 1 KiB at host level for protocol negotiation) of payload: go-yamux accounts a window update locally and then drops it when the deadline has expired (stream.go sendWindowUpdate/GrowTo), so such a reader never grants new credit and a longer payload stalls -- a liveness matter of the dependency outside the statement, not generated",
@@ -423,6 +435,9 @@ func runWriter(w io.Writer, p dirPlan, data []byte, sk *sink, who string, tolera
 		if p.DL.WGap > 0 && i < 24 {
 			time.Sleep(p.DL.WGap)
 		}
+		if p.DL.WLong > 0 && i == p.DL.WLongAt {
+			time.Sleep(p.DL.WLong)
+		}
 		chunk := data[off : off+sz : off+sz]
 		done, fruitless := 0, 0
 		for attempt := 0; ; attempt++ {
@@ -509,6 +524,9 @@ type readerCfg struct {
 	tampered  bool                  // errors are expected; keep reading a little after the first one
 	extraRead int                   // reads attempted after the first error when tampered
 	setDL     func(time.Time) error // SetReadDeadline of the connection / stream being read (nil: the plan's read deadline is ignored)
+	// untilTotal: stop as soon as the whole payload has arrived (connections without a half-close;
+	// the caller checks separately that nothing follows)
+	untilTotal bool
 }
 
 const canary = 0xA5
@@ -538,6 +556,12 @@ func runReader(r io.Reader, p dirPlan, frames []int, want []byte, sk *sink, who 
 	}
 	emptyTimeouts, withBytes, pauses := 0, 0, 0
 	for step := 0; ; step++ {
+		if cfg.untilTotal && res.got == len(want) {
+			return
+		}
+		if dl.RLong > 0 && step == dl.RLongAt {
+			time.Sleep(dl.RLong)
+		}
 		pend := 1
 		if fi < len(frames) {
 			pend = frames[fi] - fo
